@@ -23,6 +23,19 @@ func mergeComponents(a, b map[string]string) map[string]string {
 }
 
 func init() {
+	c10K := &vcore.Prop{
+		ID: "C10", Level: "exploration", Worlds: "K", NeedNS: true,
+		Quick:    vcore.Budget{Wall: 20 * time.Second, Shards: 16},
+		Thorough: vcore.Budget{Wall: 8 * time.Minute, Shards: 16},
+		Init:     kInit, Run: c10KRun, StallLimit: 120 * time.Second,
+	}
+	register(&vcore.Prop{
+		ID: "C10", Level: "exploration", Worlds: "S1+K",
+		Rule:        c10S1.Rule + " || world K: one run = a freshly built real container serving a history of 1..6 operations drawn from {Execve of a probe that exits with a unique code; Execve of a garbage ELF (exec fails after the sync ack); unknown, non-executable and text-busy executables; empty argument list; failing callback before / after exec; Ping; Reset+Open} with sync before/after exec and with/without callback, followed by a successful Execve and a Ping; failures must be errors of their call, results must carry the call's own exit code, the init must stay alive",
+		Components:  mergeComponents(s1Components, kComponents),
+		Assumptions: append(append([]string{}, c10S1.Assumptions...), kAssume...),
+		Parts:       []*vcore.Prop{c10S1, c10K},
+	})
 	c11K := &vcore.Prop{
 		ID: "C11", Level: "exploration", Worlds: "K", NeedNS: true,
 		Quick:    vcore.Budget{Wall: 25 * time.Second, Shards: 16},
